@@ -536,5 +536,34 @@ func (g *Gen) Source(flags Flags, globalState, elseArm bool) string {
 	e := &emitter{g: g, flags: flags, elseArm: elseArm}
 	e.subst = map[string]func() string{"writeRule": func() string { return rules.String() }}
 	lit := e.emitFunc("writeGrammar")
-	return "package p\n\n" + lit + "\n" + funcs.String()
+	// further package-level emissions: builder methods that buildParser calls besides the four phases handled above
+	// (initializer, grammar literal, code methods, runtime) - e.g. shared declarations the literal refers to by name
+	var extra strings.Builder
+	if bp := g.funcs["buildParser"]; bp != nil && bp.Body != nil {
+		phase := map[string]bool{"writeInit": true, "writeGrammar": true, "writeRuleCode": true, "writeStaticCode": true, "writeRule": true, "writeExpr": true, "writeExprCode": true}
+		seen := map[string]bool{}
+		ast.Inspect(bp.Body, func(n ast.Node) bool {
+			es, ok := n.(*ast.ExprStmt)
+			if !ok {
+				return true
+			}
+			c, ok := es.X.(*ast.CallExpr)
+			if !ok {
+				return true
+			}
+			s, ok := c.Fun.(*ast.SelectorExpr)
+			if !ok || phase[s.Sel.Name] || seen[s.Sel.Name] || !strings.HasPrefix(s.Sel.Name, "write") {
+				return true
+			}
+			if fd := g.funcs[s.Sel.Name]; fd != nil && fd.Body != nil {
+				seen[s.Sel.Name] = true
+				ex := &emitter{g: g, flags: flags, elseArm: elseArm, fnID: "onSkelExtra"}
+				ex.subst = map[string]func() string{"writeExpr": func() string { return "nil,\n" }}
+				extra.WriteString(ex.emitFunc(s.Sel.Name))
+				extra.WriteString("\n")
+			}
+			return true
+		})
+	}
+	return "package p\n\n" + lit + "\n" + extra.String() + funcs.String()
 }
